@@ -103,10 +103,25 @@ PROPS = {
         "technique": "Lean 4 mutual structural induction + kernel-decided regenerated facts + differential correspondence",
         "explanation": "checkDisabledMsgs modelled with its exact level arithmetic; gate = route selection + the rejecting prefix of each chain; trees with a blocked message at a uniformly chosen position are run through the real AuthzLimiterDecorator/RejectMessagesDecorator, whole encoded txs through DeliverTx, and tx objects through a handler composed like app.go.",
     },
+    "C18": {
+        "id": "C18",
+        "lean_modules": ["HaqqModel.Props.C18"],
+        "level": "proof",
+        "trusted_base": COMMON_TRUST + [
+            "modelled, not verified: go-ethereum's Transaction (NewTx copy normalisation, hash = H(type ‖ rlp(fields)), sender recovery — both treated as functions of the field record), big.Int.Bytes/SetBytes (re-implemented and proved inverse), hex address/hash string conversion, and the generated protobuf / Any / Cosmos tx encoding (exercised end to end on every run, not modelled)",
+        ],
+        "assumptions": [
+            "hash and recovered sender are functions of the go-ethereum transaction's fields (so field identity implies both)",
+        ],
+        "level_text": "Machine-checked proof (Lean 4) that wrapping and unwrapping is the identity on every transaction of the three types whose amounts fit 256 bits (all field values, creation, empty/huge data and access lists, zero signature components), that larger values are refused rather than altered, and that fee / cost / effective price / effective fee / effective cost derived from the message equal go-ethereum's figures; tied to the real code by signing random transactions and sending them through FromEthereumTx → BuildTx → encode → decode → AsTransaction.",
+        "level_note": "Trusted: Lean kernel; correspondence harness; protobuf codec and go-ethereum hashing/recovery are not modelled (covered end to end by the monitors: hash, recorded hash, sender, canonical encoding).",
+        "technique": "Lean 4 round-trip proof (byte-encoding inverse lemma + case analysis) + differential correspondence",
+        "explanation": "Field-by-field model of the eth ↔ proto conversion; Go monitors compare hash, recorded hash, recovered sender, canonical binary encoding and the fee figures of the decoded message with the original signed transaction.",
+    },
 }
 
 # properties not (yet) claimed, each with a reason; entries disappear as checks are built
 NOT_APPLICABLE = {pid: "check not built yet in this session (planned: see DESIGN.md §5)" for pid in
-                  ["C01", "C02", "C03", "C04", "C05", "C07", "C08", "C10", "C14", "C15", "C16", "C18", "C19", "C20"]}
+                  ["C01", "C02", "C03", "C04", "C05", "C07", "C08", "C10", "C14", "C15", "C16", "C19", "C20"]}
 
 HOOK_COMMITS = []
